@@ -180,6 +180,39 @@ def base_supported(w: World, t, seen=None) -> bool:
     return True
 
 
+def base_ok(w: World, t) -> bool:
+    """BaseConverter's documented support for t AND for every class a value at an Any-typed / untyped position may have."""
+    return base_supported(w, t) and all(base_supported(w, ("class", c)) for c in range(len(w.specs)))
+
+
+def class_as_key(w: World, t, seen=None) -> bool:
+    """A class at a mapping-key or set-element position: under the dict strategy its unstructured form is a dict,
+    which cannot be a key / element (inherent, not a defect)."""
+    seen = set() if seen is None else seen
+    k = t[0]
+
+    def has_cls(u):
+        while u[0] in ("newtype", "annot", "opt"):
+            u = u[2] if u[0] == "newtype" else u[1]
+        return u[0] in ("class", "self") or (u[0] == "tuple" and any(has_cls(x) for x in u[1])) or (u[0] == "tuphom" and has_cls(u[1]))
+    if k == "dict":
+        return has_cls(t[1]) or class_as_key(w, t[2], seen)
+    if k in ("set", "fset"):
+        return has_cls(t[1])
+    if k in ("list", "tuphom", "opt", "annot"):
+        return class_as_key(w, t[1], seen)
+    if k == "newtype":
+        return class_as_key(w, t[2], seen)
+    if k == "tuple":
+        return any(class_as_key(w, x, seen) for x in t[1])
+    if k in ("class", "self"):
+        if t[1] in seen:
+            return False
+        seen.add(t[1])
+        return any(f.type is not None and class_as_key(w, f.type, seen) for f in w.specs[t[1]].fields)
+    return False
+
+
 def reaches(w: World, t, pred, seen=None) -> bool:
     """Does some class reachable from t satisfy pred(spec)?"""
     seen = set() if seen is None else seen
@@ -436,7 +469,7 @@ def conv_session(v: Verdict, name: str, flags: dict, n_worlds: int, profile: dic
                     S.add_case(w, tables, cases, "U", cfg, forbid, t, x, ures)
                     if "C03" in oracles and ures[0] == "ok":
                         oracle_c03(v, w, cfg, t, x, ures[1])
-                    if ures[0] == "err" and "C03" in oracles and conforms_py(w, x, t) and (full or base_supported(w, t)):
+                    if ures[0] == "err" and "C03" in oracles and conforms_py(w, x, t) and (full or base_ok(w, t)) and not (strat == "dict" and class_as_key(w, t)):
                         v.violation("unstructure raised on a value of the type", rp(w, cfg, forbid, t, x, ures, "C03"))
                     if ures[0] != "ok":
                         continue
@@ -509,7 +542,7 @@ def describe_class(w, spec):
 def rt_supported(w, cfg, cfg2, t):
     """Inside the region the round trip is documented for, for this pair of converters."""
     for c in (cfg, cfg2):
-        if not c[0] and not base_supported(w, t):
+        if not c[0] and not base_ok(w, t):
             return False
         if c[2] == "tuple" and reaches(w, t, has_kw_only):
             return False          # positional structuring cannot pass keyword-only attributes
@@ -550,7 +583,7 @@ def oracle_c03(v, w, cfg, t, x, u):
     full, dv, strat = cfg
     if not conforms_py(w, x, t):
         return
-    if not full and not base_supported(w, t):
+    if not full and not base_ok(w, t):
         return
     if not primitive_only(u):
         v.violation("unstructured output contains a non-primitive object", rp(w, cfg, False, t, x, ("ok", u, None), "C03"))
@@ -601,7 +634,7 @@ def mapping_shaped(w, t, o, strat, depth=0) -> bool:
 
 def oracle_c06_struct(v, w, cfg, t, o, sres):
     full, dv, strat = cfg
-    if not base_supported(w, t) or reaches(w, t, lambda s: any(not f.init for f in s.fields)):
+    if not base_ok(w, t) or reaches(w, t, lambda s: any(not f.init for f in s.fields)):
         return
     try:
         if not mapping_shaped(w, t, o, strat):
@@ -636,7 +669,7 @@ def listify_h(u):
 
 
 def oracle_c06_unstruct(v, w, t, x, outs):
-    if not base_supported(w, t) or not conforms_py(w, x, t):
+    if not base_ok(w, t) or not conforms_py(w, x, t):
         return
     by = {}
     for (full, dv, strat), u in outs.items():
